@@ -10,7 +10,7 @@ C08.d  list order established by the constructors (MSBF / LSBF variants).
 import ast
 
 from ..contracts import LIST_ORDER
-from ..leafrules import leaf_contracts, definite_failures
+from ..leafrules import leaf_contracts, definite_failures, shared_instance_state
 from ..structrules import run_specs
 from ..srcmap import norm
 
@@ -53,6 +53,8 @@ def run(ctx, sm, facts):
     run_specs(ctx, facts, 'C08', 'C08.b', ctx.tier, ctx.seed, floor=25)
     definite_failures(ctx, facts, sm, 'C08.c', FILES,
                       class_filter=lambda n: not n.startswith('FP') and n not in ('FixedPointComparator',))
+    ctx.rule('C08.e', 'instance isolation in bitwise.py / relational.py: no mutable default / class-level container / memoised method carries state between instances')
+    shared_instance_state(ctx, facts, 'C08.e', FILES)
     ctx.not_decided += ['widths and arities above the grid bound', 'Digit7Segment (display decoding table)',
                         'floating/fixed-point comparators (C13/C14)']
     ctx.assumptions += ['the elaborator (hv/elab.py) interprets construction code faithfully; unsupported constructs abort the entry as not elaborated',
